@@ -969,8 +969,7 @@ static Value builtin_array_slice(Value *args) {
         Array *arr = args[0].as.array_val;
         int64_t len = arr->length;
         if (start > len) start = len;
-        int64_t end = start + length;
-        if (end > len) end = len;
+        int64_t end = (length > len - start) ? len : start + length;   /* no overflow of start + length */
         int64_t out_len = end - start;
 
         Value out = create_array(arr->element_type, out_len, out_len);
@@ -1012,8 +1011,7 @@ static Value builtin_array_slice(Value *args) {
         DynArray *arr = args[0].as.dyn_array_val;
         int64_t len = dyn_array_length(arr);
         if (start > len) start = len;
-        int64_t end = start + length;
-        if (end > len) end = len;
+        int64_t end = (length > len - start) ? len : start + length;   /* no overflow of start + length */
 
         ElementType t = dyn_array_get_elem_type(arr);
         DynArray *out = dyn_array_new(t);
